@@ -58,7 +58,8 @@ def _leaf(x):
   if isinstance(x, (type, types.FunctionType, types.BuiltinFunctionType, types.MethodType)):
     return ('obj', x)
   if isinstance(x, (slice, range)):
-    return ('leaf', t.__name__, repr(x))
+    # (no repr: formatting a symbolic int forks once per digit count)
+    return ('leaf', t.__name__, (_leaf(x.start), _leaf(x.stop), _leaf(x.step)))
   return ('leaf', t.__name__, x)
 
 
@@ -85,7 +86,7 @@ def canon(x, memo=None):
     if isinstance(x, collections.defaultdict):
       extra = (('default_factory', ('obj', x.default_factory)),)
     return ('dict', n, type(x).__name__, extra,
-            tuple((k, canon(x[k], memo)) for k in sorted(x, key=_kkey)))
+            tuple((k if type(k) in (int, str) else _kkey(k), canon(x[k], memo)) for k in sorted(x, key=_kkey)))
   if isinstance(x, list):
     return ('list', n, tuple(canon(v, memo) for v in x))
   if isinstance(x, tuple):
